@@ -245,4 +245,339 @@ def DataFrame_getattribute_signature : List String := ["self", "name"]
 /-- the calls of dataiter/data_frame.py: DataFrame.__getattribute__ in the order Python makes them along the source text -/
 def DataFrame_getattribute_call_order : List String := ["super", "super().__getattribute__"]
 
+/-- dataiter/data_frame.py: DataFrameColumn.__init__ (sha256 of the function source: 2ba2dd4daa3844a8) -/
+def DataFrameColumn_init (truth : Term → Bool) : Out :=
+  let eff0 : Term := (Term.app "super().__init__" [(Term.sym "object"), (Term.sym "dtype")]);
+  Out.fall [eff0]
+
+/-- the decorators of dataiter/data_frame.py: DataFrameColumn.__init__, outermost first -/
+def DataFrameColumn_init_decorators : List String := []
+
+/-- the signature of dataiter/data_frame.py: DataFrameColumn.__init__: parameters in order, with the source text of their defaults -/
+def DataFrameColumn_init_signature : List String := ["self", "object", "dtype=None", "nrow=None"]
+
+/-- the calls of dataiter/data_frame.py: DataFrameColumn.__init__ in the order Python makes them along the source text -/
+def DataFrameColumn_init_call_order : List String := ["super", "super().__init__"]
+
+/-- dataiter/data_frame.py: DataFrameColumn.nrow (sha256 of the function source: ee722a29ea7d74f6) -/
+def DataFrameColumn_nrow (truth : Term → Bool) : Out :=
+  Out.ret [] (Term.app ".length" [(Term.sym "self")])
+
+/-- the decorators of dataiter/data_frame.py: DataFrameColumn.nrow, outermost first -/
+def DataFrameColumn_nrow_decorators : List String := ["property"]
+
+/-- the signature of dataiter/data_frame.py: DataFrameColumn.nrow: parameters in order, with the source text of their defaults -/
+def DataFrameColumn_nrow_signature : List String := ["self"]
+
+/-- the calls of dataiter/data_frame.py: DataFrameColumn.nrow in the order Python makes them along the source text -/
+def DataFrameColumn_nrow_call_order : List String := []
+
+/-- dataiter/data_frame.py: DataFrame.__init__ (sha256 of the function source: f24eaf49f8b8964d) -/
+def DataFrame_init (truth : Term → Bool) : Out :=
+  let eff0 : Term := (Term.app "super().__init__" [(Term.app "*" [(Term.sym "args")]), (Term.app "=**" [(Term.sym "kwargs")])]);
+  let nrow' : Term := (Term.app "max" [(Term.app "map" [(Term.sym "util.length"), (Term.app ".values" [(Term.sym "self")])]), (Term.app "=default" [(Term.int (0 : Int))])]);
+  let eff1 : Term := (Term.app "for" [(Term.app "tuple" [(Term.sym "key"), (Term.sym "value")]), (Term.app ".items" [(Term.sym "self")]), (Term.app "block" [(Term.app "if" [(Term.app "And" [(Term.app "isinstance" [(Term.sym "value"), (Term.sym "DataFrameColumn")]), (Term.app "Eq" [(Term.app ".nrow" [(Term.sym "value")]), nrow'])]), (Term.app "block" [(Term.sym "continue")]), (Term.app "block" [])]), (Term.app "assign" [(Term.sym "column"), (Term.app "DataFrameColumn" [(Term.sym "value"), (Term.app "=nrow" [nrow'])])]), (Term.app "super().__setitem__" [(Term.sym "key"), (Term.sym "column")])])]);
+  let column' : Term := (Term.app "value-after-loop" [(Term.sym "column"), eff1]);
+  let eff2 : Term := (Term.app "for" [(Term.sym "key"), (Term.sym "self"), (Term.app "block" [(Term.app "if" [(Term.app "And" [(Term.app "not" [(Term.app ".__hasattr" [(Term.sym "self"), (Term.sym "key")])]), (Term.app ".isidentifier" [(Term.sym "key")])]), (Term.app "block" [(Term.app "super().__setattr__" [(Term.sym "key"), (Term.app ".COLUMN_PLACEHOLDER" [(Term.sym "self")])])]), (Term.app "block" [])])])]);
+  let eff3 : Term := (Term.app "._check_dimensions" [(Term.sym "self")]);
+  let attr4_1' : Term := (Term.app "tuple" []);
+  let eff4 : Term := (Term.app "setattr" [(Term.sym "self"), (Term.sym "_group_colnames"), attr4_1']);
+  Out.fall [eff0, eff1, eff2, eff3, eff4]
+
+/-- the decorators of dataiter/data_frame.py: DataFrame.__init__, outermost first -/
+def DataFrame_init_decorators : List String := []
+
+/-- the signature of dataiter/data_frame.py: DataFrame.__init__: parameters in order, with the source text of their defaults -/
+def DataFrame_init_signature : List String := ["self", "*args", "**kwargs"]
+
+/-- the calls of dataiter/data_frame.py: DataFrame.__init__ in the order Python makes them along the source text -/
+def DataFrame_init_call_order : List String := ["super", "super().__init__", "self.values", "map", "max", "self.items", "isinstance", "DataFrameColumn", "super", "super().__setitem__", "self.__hasattr", "key.isidentifier", "super", "super().__setattr__", "self._check_dimensions"]
+
+/-- dataiter/data_frame.py: DataFrame.__setattr__ (sha256 of the function source: 0b95468b7d5a8624) -/
+def DataFrame_setattr (truth : Term → Bool) : Out :=
+  if truth (Term.app "In" [(Term.sym "name"), (Term.app ".ATTRIBUTES" [(Term.sym "self")])]) then
+    Out.ret [] (Term.app "super().__setattr__" [(Term.sym "name"), (Term.sym "value")])
+  else
+    Out.ret [] (Term.app ".__setitem__" [(Term.sym "self"), (Term.sym "name"), (Term.sym "value")])
+
+/-- the decorators of dataiter/data_frame.py: DataFrame.__setattr__, outermost first -/
+def DataFrame_setattr_decorators : List String := []
+
+/-- the signature of dataiter/data_frame.py: DataFrame.__setattr__: parameters in order, with the source text of their defaults -/
+def DataFrame_setattr_signature : List String := ["self", "name", "value"]
+
+/-- the calls of dataiter/data_frame.py: DataFrame.__setattr__ in the order Python makes them along the source text -/
+def DataFrame_setattr_call_order : List String := ["super", "super().__setattr__", "self.__setitem__"]
+
+/-- dataiter/data_frame.py: DataFrame.__hasattr (sha256 of the function source: 8d9b091cb61c0c7a) -/
+def DataFrame_hasattr (truth : Term → Bool) : Out :=
+  Out.ret [] (Term.app "And" [(Term.app "hasattr" [(Term.sym "self"), (Term.sym "name")]), (Term.app "not" [(Term.app "isinstance" [(Term.app "getattr" [(Term.sym "self"), (Term.sym "name")]), (Term.sym "DataFrameColumn")])])])
+
+/-- the decorators of dataiter/data_frame.py: DataFrame.__hasattr, outermost first -/
+def DataFrame_hasattr_decorators : List String := []
+
+/-- the signature of dataiter/data_frame.py: DataFrame.__hasattr: parameters in order, with the source text of their defaults -/
+def DataFrame_hasattr_signature : List String := ["self", "name"]
+
+/-- the calls of dataiter/data_frame.py: DataFrame.__hasattr in the order Python makes them along the source text -/
+def DataFrame_hasattr_call_order : List String := ["hasattr", "getattr", "isinstance"]
+
+/-- dataiter/data_frame.py: DataFrame.__is_builtin_attr (sha256 of the function source: 0956a28a6b64d504) -/
+def DataFrame_is_builtin_attr (truth : Term → Bool) : Out :=
+  Out.ret [] (Term.app "In" [(Term.sym "name"), (Term.app ".__list_builtin_attrs" [(Term.sym "cls")])])
+
+/-- the decorators of dataiter/data_frame.py: DataFrame.__is_builtin_attr, outermost first -/
+def DataFrame_is_builtin_attr_decorators : List String := ["classmethod"]
+
+/-- the signature of dataiter/data_frame.py: DataFrame.__is_builtin_attr: parameters in order, with the source text of their defaults -/
+def DataFrame_is_builtin_attr_signature : List String := ["cls", "name"]
+
+/-- the calls of dataiter/data_frame.py: DataFrame.__is_builtin_attr in the order Python makes them along the source text -/
+def DataFrame_is_builtin_attr_call_order : List String := ["cls.__list_builtin_attrs"]
+
+/-- dataiter/data_frame.py: DataFrame.__list_builtin_attrs (sha256 of the function source: c8a9c32ee379c9d8) -/
+def DataFrame_list_builtin_attrs (truth : Term → Bool) : Out :=
+  Out.ret [] (Term.app "set()" [(Term.app "dir" [(Term.app "cls" [])])])
+
+/-- the decorators of dataiter/data_frame.py: DataFrame.__list_builtin_attrs, outermost first -/
+def DataFrame_list_builtin_attrs_decorators : List String := ["classmethod", "functools.lru_cache(None)"]
+
+/-- the signature of dataiter/data_frame.py: DataFrame.__list_builtin_attrs: parameters in order, with the source text of their defaults -/
+def DataFrame_list_builtin_attrs_signature : List String := ["cls"]
+
+/-- the calls of dataiter/data_frame.py: DataFrame.__list_builtin_attrs in the order Python makes them along the source text -/
+def DataFrame_list_builtin_attrs_call_order : List String := ["cls", "dir", "set"]
+
+/-- dataiter/data_frame.py: DataFrame.clear (sha256 of the function source: fdd7fe909ce807ce) -/
+def DataFrame_clear (truth : Term → Bool) : Out :=
+  Out.ret [] (Term.app "._new" [(Term.sym "self")])
+
+/-- the decorators of dataiter/data_frame.py: DataFrame.clear, outermost first -/
+def DataFrame_clear_decorators : List String := []
+
+/-- the signature of dataiter/data_frame.py: DataFrame.clear: parameters in order, with the source text of their defaults -/
+def DataFrame_clear_signature : List String := ["self"]
+
+/-- the calls of dataiter/data_frame.py: DataFrame.clear in the order Python makes them along the source text -/
+def DataFrame_clear_call_order : List String := ["self._new"]
+
+/-- dataiter/data_frame.py: DataFrame.colnames#0 (sha256 of the function source: 7124e336f7b176cf) -/
+def DataFrame_colnames_get (truth : Term → Bool) : Out :=
+  Out.ret [] (Term.app "list()" [(Term.sym "self")])
+
+/-- the decorators of dataiter/data_frame.py: DataFrame.colnames#0, outermost first -/
+def DataFrame_colnames_get_decorators : List String := ["property"]
+
+/-- the signature of dataiter/data_frame.py: DataFrame.colnames#0: parameters in order, with the source text of their defaults -/
+def DataFrame_colnames_get_signature : List String := ["self"]
+
+/-- the calls of dataiter/data_frame.py: DataFrame.colnames#0 in the order Python makes them along the source text -/
+def DataFrame_colnames_get_call_order : List String := ["list"]
+
+/-- dataiter/data_frame.py: DataFrame.colnames#1 (sha256 of the function source: c61866bf250008c1) -/
+def DataFrame_colnames_set (truth : Term → Bool) : Out :=
+  let pairs' : Term := (Term.app "list()" [(Term.app "zip" [(Term.app "list()" [(Term.app ".keys" [(Term.sym "self")])]), (Term.sym "colnames")])]);
+  let columns' : Term := (Term.app "ListComp" [(Term.app ".pop" [(Term.sym "self"), (Term.sym "fm")]), (Term.app "in" [(Term.app "tuple" [(Term.sym "fm"), (Term.sym "to")]), pairs', (Term.app "if" [])])]);
+  let eff0 : Term := (Term.app "for" [(Term.app "tuple" [(Term.app "tuple" [(Term.sym "fm"), (Term.sym "to")]), (Term.sym "column")]), (Term.app "zip" [pairs', columns']), (Term.app "block" [(Term.app "store" [(Term.app "getitem" [(Term.sym "self"), (Term.sym "to")]), (Term.sym "column")])])]);
+  Out.fall [eff0]
+
+/-- the decorators of dataiter/data_frame.py: DataFrame.colnames#1, outermost first -/
+def DataFrame_colnames_set_decorators : List String := ["colnames.setter"]
+
+/-- the signature of dataiter/data_frame.py: DataFrame.colnames#1: parameters in order, with the source text of their defaults -/
+def DataFrame_colnames_set_signature : List String := ["self", "colnames"]
+
+/-- the calls of dataiter/data_frame.py: DataFrame.colnames#1 in the order Python makes them along the source text -/
+def DataFrame_colnames_set_call_order : List String := ["self.keys", "list", "zip", "list", "self.pop", "zip"]
+
+/-- dataiter/data_frame.py: DataFrame.columns (sha256 of the function source: 864338c4d743c83d) -/
+def DataFrame_columns (truth : Term → Bool) : Out :=
+  Out.ret [] (Term.app "list()" [(Term.app ".values" [(Term.sym "self")])])
+
+/-- the decorators of dataiter/data_frame.py: DataFrame.columns, outermost first -/
+def DataFrame_columns_decorators : List String := ["property"]
+
+/-- the signature of dataiter/data_frame.py: DataFrame.columns: parameters in order, with the source text of their defaults -/
+def DataFrame_columns_signature : List String := ["self"]
+
+/-- the calls of dataiter/data_frame.py: DataFrame.columns in the order Python makes them along the source text -/
+def DataFrame_columns_call_order : List String := ["self.values", "list"]
+
+/-- dataiter/data_frame.py: DataFrame.ncol (sha256 of the function source: 3d1797c2db67d47f) -/
+def DataFrame_ncol (truth : Term → Bool) : Out :=
+  let eff0 : Term := (Term.app "._check_dimensions" [(Term.sym "self")]);
+  Out.ret [eff0] (Term.app "len" [(Term.sym "self")])
+
+/-- the decorators of dataiter/data_frame.py: DataFrame.ncol, outermost first -/
+def DataFrame_ncol_decorators : List String := ["property"]
+
+/-- the signature of dataiter/data_frame.py: DataFrame.ncol: parameters in order, with the source text of their defaults -/
+def DataFrame_ncol_signature : List String := ["self"]
+
+/-- the calls of dataiter/data_frame.py: DataFrame.ncol in the order Python makes them along the source text -/
+def DataFrame_ncol_call_order : List String := ["self._check_dimensions", "len"]
+
+/-- dataiter/data_frame.py: DataFrame._new (sha256 of the function source: 75baeeb431b2fbd7) -/
+def DataFrame_new (truth : Term → Bool) : Out :=
+  Out.ret [] (Term.app "cls" [(Term.app "*" [(Term.sym "args")]), (Term.app "=**" [(Term.sym "kwargs")])])
+
+/-- the decorators of dataiter/data_frame.py: DataFrame._new, outermost first -/
+def DataFrame_new_decorators : List String := ["classmethod"]
+
+/-- the signature of dataiter/data_frame.py: DataFrame._new: parameters in order, with the source text of their defaults -/
+def DataFrame_new_signature : List String := ["cls", "*args", "**kwargs"]
+
+/-- the calls of dataiter/data_frame.py: DataFrame._new in the order Python makes them along the source text -/
+def DataFrame_new_call_order : List String := ["cls"]
+
+/-- dataiter/data_frame.py: DataFrame.popitem (sha256 of the function source: 59179c22176a7aa9) -/
+def DataFrame_popitem (truth : Term → Bool) : Out :=
+  let tup0_1' : Term := (Term.app "super().popitem" []);
+  let key' : Term := (Term.app "item0" [tup0_1']);
+  let value' : Term := (Term.app "item1" [tup0_1']);
+  if truth (Term.app "hasattr" [(Term.sym "self"), key']) then
+    if (!truth (Term.app ".__is_builtin_attr" [(Term.sym "self"), key'])) then
+      let eff0 : Term := (Term.app "super().__delattr__" [key']);
+      Out.ret [eff0] (Term.app "tuple" [key', value'])
+    else
+      Out.ret [] (Term.app "tuple" [key', value'])
+  else
+    Out.ret [] (Term.app "tuple" [key', value'])
+
+/-- the decorators of dataiter/data_frame.py: DataFrame.popitem, outermost first -/
+def DataFrame_popitem_decorators : List String := []
+
+/-- the signature of dataiter/data_frame.py: DataFrame.popitem: parameters in order, with the source text of their defaults -/
+def DataFrame_popitem_signature : List String := ["self"]
+
+/-- the calls of dataiter/data_frame.py: DataFrame.popitem in the order Python makes them along the source text -/
+def DataFrame_popitem_call_order : List String := ["super", "super().popitem", "hasattr", "self.__is_builtin_attr", "super", "super().__delattr__"]
+
+/-- dataiter/data_frame.py: DataFrame.__copy__ (sha256 of the function source: 8b07b822c8bcc720) -/
+def DataFrame_copy (truth : Term → Bool) : Out :=
+  Out.ret [] (Term.app ".__class__" [(Term.sym "self"), (Term.sym "self")])
+
+/-- the decorators of dataiter/data_frame.py: DataFrame.__copy__, outermost first -/
+def DataFrame_copy_decorators : List String := []
+
+/-- the signature of dataiter/data_frame.py: DataFrame.__copy__: parameters in order, with the source text of their defaults -/
+def DataFrame_copy_signature : List String := ["self"]
+
+/-- the calls of dataiter/data_frame.py: DataFrame.__copy__ in the order Python makes them along the source text -/
+def DataFrame_copy_call_order : List String := ["self.__class__"]
+
+/-- dataiter/data_frame.py: DataFrame.__deepcopy__ (sha256 of the function source: 931acca830e63f6b) -/
+def DataFrame_deepcopy (truth : Term → Bool) : Out :=
+  Out.ret [] (Term.app ".__class__" [(Term.sym "self"), (Term.app "DictComp" [(Term.app "pair" [(Term.sym "k"), (Term.app ".copy" [(Term.sym "v")])]), (Term.app "in" [(Term.app "tuple" [(Term.sym "k"), (Term.sym "v")]), (Term.app ".items" [(Term.sym "self")]), (Term.app "if" [])])])])
+
+/-- the decorators of dataiter/data_frame.py: DataFrame.__deepcopy__, outermost first -/
+def DataFrame_deepcopy_decorators : List String := []
+
+/-- the signature of dataiter/data_frame.py: DataFrame.__deepcopy__: parameters in order, with the source text of their defaults -/
+def DataFrame_deepcopy_signature : List String := ["self", "memo=None"]
+
+/-- the calls of dataiter/data_frame.py: DataFrame.__deepcopy__ in the order Python makes them along the source text -/
+def DataFrame_deepcopy_call_order : List String := ["v.copy", "self.items", "self.__class__"]
+
+/-- dataiter/data_frame.py: DataFrame.copy (sha256 of the function source: 137155dde933b202) -/
+def DataFrame_copy2 (truth : Term → Bool) : Out :=
+  Out.ret [] (Term.app ".__copy__" [(Term.sym "self")])
+
+/-- the decorators of dataiter/data_frame.py: DataFrame.copy, outermost first -/
+def DataFrame_copy2_decorators : List String := []
+
+/-- the signature of dataiter/data_frame.py: DataFrame.copy: parameters in order, with the source text of their defaults -/
+def DataFrame_copy2_signature : List String := ["self"]
+
+/-- the calls of dataiter/data_frame.py: DataFrame.copy in the order Python makes them along the source text -/
+def DataFrame_copy2_call_order : List String := ["self.__copy__"]
+
+/-- dataiter/data_frame.py: DataFrame.deepcopy (sha256 of the function source: fcbd6f8670eb6bd1) -/
+def DataFrame_deepcopy2 (truth : Term → Bool) : Out :=
+  Out.ret [] (Term.app ".__deepcopy__" [(Term.sym "self")])
+
+/-- the decorators of dataiter/data_frame.py: DataFrame.deepcopy, outermost first -/
+def DataFrame_deepcopy2_decorators : List String := []
+
+/-- the signature of dataiter/data_frame.py: DataFrame.deepcopy: parameters in order, with the source text of their defaults -/
+def DataFrame_deepcopy2_signature : List String := ["self"]
+
+/-- the calls of dataiter/data_frame.py: DataFrame.deepcopy in the order Python makes them along the source text -/
+def DataFrame_deepcopy2_call_order : List String := ["self.__deepcopy__"]
+
+/-- dataiter/util.py: is_scalar (sha256 of the function source: 9e68b4eb163c2230) -/
+def util_is_scalar (truth : Term → Bool) : Out :=
+  Out.ret [] (Term.app "Or" [(Term.app "np.isscalar" [(Term.sym "value")]), (Term.app "Is" [(Term.sym "value"), (Term.sym "None")]), (Term.app "isinstance" [(Term.sym "value"), (Term.app "tuple" [(Term.sym "bytes"), (Term.sym "bool"), (Term.sym "float"), (Term.sym "int"), (Term.sym "str"), (Term.sym "datetime.date"), (Term.sym "datetime.datetime"), (Term.sym "datetime.timedelta")])])])
+
+/-- the decorators of dataiter/util.py: is_scalar, outermost first -/
+def util_is_scalar_decorators : List String := []
+
+/-- the signature of dataiter/util.py: is_scalar: parameters in order, with the source text of their defaults -/
+def util_is_scalar_signature : List String := ["value"]
+
+/-- the calls of dataiter/util.py: is_scalar in the order Python makes them along the source text -/
+def util_is_scalar_call_order : List String := ["np.isscalar", "isinstance"]
+
+/-- dataiter/util.py: sequencify (sha256 of the function source: e69a8e05b877f980) -/
+def util_sequencify (truth : Term → Bool) : Out :=
+  if truth (Term.app "isinstance" [(Term.sym "value"), (Term.app "tuple" [(Term.sym "np.ndarray"), (Term.sym "list"), (Term.sym "tuple")])]) then
+    Out.ret [] (Term.sym "value")
+  else
+    if truth (Term.app "is_scalar" [(Term.sym "value")]) then
+      Out.ret [] (Term.app "list" [(Term.sym "value")])
+    else
+      if truth (Term.app "hasattr" [(Term.sym "value"), (Term.sym "'__iter__'")]) then
+        Out.ret [] (Term.app "list()" [(Term.sym "value")])
+      else
+        Out.raise [] "ValueError"
+
+/-- the decorators of dataiter/util.py: sequencify, outermost first -/
+def util_sequencify_decorators : List String := []
+
+/-- the signature of dataiter/util.py: sequencify: parameters in order, with the source text of their defaults -/
+def util_sequencify_signature : List String := ["value"]
+
+/-- the calls of dataiter/util.py: sequencify in the order Python makes them along the source text -/
+def util_sequencify_call_order : List String := ["isinstance", "is_scalar", "hasattr", "list", "type", "ValueError"]
+
+/-- dataiter/util.py: generate_colnames (sha256 of the function source: a4cb927569700a95) -/
+def util_generate_colnames (truth : Term → Bool) : Out :=
+  Out.ret [] (Term.app "list()" [(Term.app "itertools.islice" [(Term.app "yield_colnames" []), (Term.sym "n")])])
+
+/-- the decorators of dataiter/util.py: generate_colnames, outermost first -/
+def util_generate_colnames_decorators : List String := []
+
+/-- the signature of dataiter/util.py: generate_colnames: parameters in order, with the source text of their defaults -/
+def util_generate_colnames_signature : List String := ["n"]
+
+/-- the calls of dataiter/util.py: generate_colnames in the order Python makes them along the source text -/
+def util_generate_colnames_call_order : List String := ["yield_colnames", "itertools.islice", "list"]
+
+/-- dataiter/util.py: yield_colnames (sha256 of the function source: 5cfed4ff9607c07e) -/
+def util_yield_colnames (truth : Term → Bool) : Out :=
+  let eff0 : Term := (Term.app "for" [(Term.sym "batch"), (Term.rows (arange (1 : Int) (1000 : Int))), (Term.app "block" [(Term.app "for" [(Term.sym "letter"), (Term.sym "string.ascii_lowercase"), (Term.app "block" [(Term.app "yield" [(Term.app "Mult" [(Term.sym "letter"), (Term.sym "batch")])])])])])]);
+  Out.fall [eff0]
+
+/-- the decorators of dataiter/util.py: yield_colnames, outermost first -/
+def util_yield_colnames_decorators : List String := []
+
+/-- the signature of dataiter/util.py: yield_colnames: parameters in order, with the source text of their defaults -/
+def util_yield_colnames_signature : List String := []
+
+/-- the calls of dataiter/util.py: yield_colnames in the order Python makes them along the source text -/
+def util_yield_colnames_call_order : List String := ["range"]
+
+/-- dataiter/data_frame.py: DataFrame.__eq__ (sha256 of the function source: dbd9359511de967d) -/
+def DataFrame_eq (truth : Term → Bool) : Out :=
+  Out.ret [] (Term.app "And" [(Term.app "isinstance" [(Term.sym "other"), (Term.sym "DataFrame")]), (Term.app "Eq" [(Term.app ".nrow" [(Term.sym "self")]), (Term.app ".nrow" [(Term.sym "other")])]), (Term.app "Eq" [(Term.app ".ncol" [(Term.sym "self")]), (Term.app ".ncol" [(Term.sym "other")])]), (Term.app "Eq" [(Term.app "set()" [(Term.app ".colnames" [(Term.sym "self")])]), (Term.app "set()" [(Term.app ".colnames" [(Term.sym "other")])])]), (Term.app "all" [(Term.app "GeneratorExp" [(Term.app ".equal" [(Term.app "getitem" [(Term.sym "self"), (Term.sym "x")]), (Term.app "getitem" [(Term.sym "other"), (Term.sym "x")])]), (Term.app "in" [(Term.sym "x"), (Term.sym "self"), (Term.app "if" [])])])])])
+
+/-- the decorators of dataiter/data_frame.py: DataFrame.__eq__, outermost first -/
+def DataFrame_eq_decorators : List String := []
+
+/-- the signature of dataiter/data_frame.py: DataFrame.__eq__: parameters in order, with the source text of their defaults -/
+def DataFrame_eq_signature : List String := ["self", "other"]
+
+/-- the calls of dataiter/data_frame.py: DataFrame.__eq__ in the order Python makes them along the source text -/
+def DataFrame_eq_call_order : List String := ["isinstance", "set", "set", "self[x].equal", "all"]
+
 end DI.Gen
